@@ -722,7 +722,35 @@ def call_builtin_method(I, obj, name, args, kw):
 
 
 _OPAQUE_METHODS = {"sum", "mean", "reshape", "astype", "copy", "ravel", "squeeze", "transpose", "compute", "rechunk",
-                   "conj", "real", "imag"}
+                   "conj", "real", "imag", "map_overlap", "map_blocks"}
+
+
+class OpaqueFn:
+    """An external callable treated as a black box: each call is recorded (name, args, kwargs) and returns a fresh
+    opaque value. Used for array kernels (scipy.ndimage.gaussian_filter, ...) whose *arguments* are under contract."""
+
+    def __init__(self, name, tag="ndarray"):
+        self.name = name
+        self.tag = tag
+
+    def __repr__(self):
+        return f"OpaqueFn({self.name})"
+
+
+def call_opaque_fn(I, f, args, kw):
+    from .contracts import opq_sort
+
+    obs = getattr(I.ctx, "observations", None)
+    if obs is None:
+        obs = I.ctx.observations = []
+    res = Opaque(z3.Const(I.ctx.fresh_name(f.name), opq_sort(f.tag)), f.tag)
+    obs.append(dict(op=f.name, obj=None, args=list(args), kwargs=dict(kw), result=res))
+    I.ctx.trusted.add(f"external kernel {f.name} is a black box: only the arguments passed to it are under contract")
+    return res
+
+
+class NdimageModule:
+    pass
 
 
 def _fresh_opaque(I, like, what):
@@ -1272,3 +1300,11 @@ def np_linspace(I, args, kw):
     if isinstance(length, int) and length <= 64:
         return Arr([v_add(start, v_mul(i, step)) for i in range(length)]) if False else tuple(v_add(start, v_mul(i, step)) for i in range(length))
     return SymSeq(length, lambda i: v_add(start, v_mul(to_float(I, i), step)), "linspace")
+
+
+@_ext("abtem.core.backend.get_ndimage_module")
+def a_get_ndimage_module(I, args, kw):
+    return ModuleRef("scipy.ndimage")
+
+
+_EXTERNALS["scipy.ndimage.gaussian_filter"] = OpaqueFn("gaussian_filter")
